@@ -255,7 +255,7 @@ Definition show_exn (tr : list event) (e : exn) : string :=
               " origin=" ++ match d_origin d with Some f => f | None => "-" end
   | None => " args=" ++ (if (isinstance e "TypeError" || isinstance e "NameError" || isinstance e "KeyError") && String.eqb tag "-"
                           then "*" else show_args (e_args e))
-  end ++ " cause=" ++ show_rel tr (e_cause e) ++ " ctx=" ++ show_rel tr (e_ctx e).
+  end ++ " cause=" ++ show_rel tr (e_cause e) ++ " ctx=" ++ (let c := show_rel tr (e_ctx e) in if String.eqb c "o" then "-" else c).
 Definition show_outcome (tr : list event) (o : outcome) : string :=
   match o with
   | ORet v => "R " ++ show_value v
